@@ -6,7 +6,7 @@
 use crate::oracle::{Counters, Obs};
 use crate::{f64of, with_kernel, Case, Problem, SvmFloat};
 use linfa::dataset::{Dataset, DatasetBase, Pr};
-use linfa::traits::{Fit, Predict};
+use linfa::traits::{Fit, Predict, PredictInplace};
 use linfa_svm::Svm;
 use lvmc_core::{guarded, json, Value, Violation};
 use ndarray::{s, Array1, Array2, ArrayBase, ArrayView1, ArrayView2, Data, Ix2, ShapeBuilder};
@@ -162,7 +162,7 @@ fn common<F: SvmFloat, T: std::fmt::Debug, D: Data<Elem = F>>(m: &Svm<F, T>, xt:
 }
 
 /// everything the model publishes for the given records (in whatever layout they come)
-fn observe_any<F: SvmFloat, D: Data<Elem = F>>(m: &Model<F>, xt: &ArrayBase<D, Ix2>, xp: &ArrayBase<D, Ix2>) -> Result<Obs, String> {
+pub(crate) fn observe_any<F: SvmFloat, D: Data<Elem = F>>(m: &Model<F>, xt: &ArrayBase<D, Ix2>, xp: &ArrayBase<D, Ix2>) -> Result<Obs, String> {
     guarded(|| match m {
         Model::Bool(s) => {
             let mut o = common(s, xt, xp);
@@ -207,7 +207,7 @@ fn first_diff(a: &[f64], b: &[f64]) -> String {
 }
 
 /// (what differs: "model" | "weighted_sum" | "predict", detail)
-fn obs_diff(a: &Obs, b: &Obs) -> Option<(&'static str, String)> {
+pub(crate) fn obs_diff(a: &Obs, b: &Obs) -> Option<(&'static str, String)> {
     if !bits_eq(&a.alpha, &b.alpha) {
         return Some(("model", format!("alpha differs ({})", first_diff(&a.alpha, &b.alpha))));
     }
@@ -341,6 +341,108 @@ pub fn run_typed<F: SvmFloat>(case: &Case, v: &mut Vec<Violation>) -> Counters {
                     if let Some(d) = bad {
                         v.push(Violation::new(format!("{}.weighted_sum.layout_dependence", tag), format!("new sample {}: {}", pi, d), cj(Layout::Strided, "weighted_sum_1d")));
                     }
+                }
+                // (4) predict_inplace into poisoned / reused buffers, single-sample predict
+                let np = case.probes.len();
+                let prev = xt.std.slice(s![..np, ..]).to_owned();
+                let mut bad: Vec<String> = Vec::new();
+                let r = guarded(|| {
+                    let mut bad: Vec<String> = Vec::new();
+                    let mut calls = 0u64;
+                    match m {
+                        Model::Bool(s) => {
+                            for (x, want, what) in [(&xt.std, &bo.lab_train, "training"), (&xp.std, &bo.lab_probe, "new")] {
+                                let mut buf: Array1<bool> = want.iter().map(|b| !*b).collect();
+                                s.predict_inplace(x, &mut buf);
+                                calls += 1;
+                                if buf.to_vec() != *want {
+                                    bad.push(format!("buffer pre-filled with the opposite labels ({} records): {:?} vs plain {:?}", what, buf.to_vec(), want));
+                                }
+                            }
+                            let mut buf: Array1<bool> = s.default_target(&prev);
+                            s.predict_inplace(&prev, &mut buf);
+                            s.predict_inplace(&xp.std, &mut buf);
+                            calls += 2;
+                            if buf.to_vec() != bo.lab_probe {
+                                bad.push(format!("buffer reused from another batch: {:?} vs plain {:?}", buf.to_vec(), bo.lab_probe));
+                            }
+                            for (i, row) in xp.std.outer_iter().enumerate() {
+                                calls += 1;
+                                let one: bool = s.predict(row);
+                                if one != bo.lab_probe[i] {
+                                    bad.push(format!("single-sample predict of new sample {}: {} vs batch {}", i, one, bo.lab_probe[i]));
+                                }
+                            }
+                        }
+                        Model::Pr(s) => {
+                            for (x, want, what) in [(&xt.std, &bo.pr_train, "training"), (&xp.std, &bo.pr_probe, "new")] {
+                                let mut buf: Array1<Pr> = Array1::from_elem(want.len(), Pr::new_unchecked(0.987_654_3));
+                                s.predict_inplace(x, &mut buf);
+                                calls += 1;
+                                let got: Vec<f64> = buf.iter().map(|p| **p as f64).collect();
+                                if !bits_eq(&got, want) {
+                                    bad.push(format!("buffer pre-filled with a poison Pr ({} records): {}", what, first_diff(&got, want)));
+                                }
+                            }
+                            let mut buf: Array1<Pr> = s.default_target(&prev);
+                            s.predict_inplace(&prev, &mut buf);
+                            s.predict_inplace(&xp.std, &mut buf);
+                            calls += 2;
+                            let got: Vec<f64> = buf.iter().map(|p| **p as f64).collect();
+                            if !bits_eq(&got, &bo.pr_probe) {
+                                bad.push(format!("buffer reused from another batch: {}", first_diff(&got, &bo.pr_probe)));
+                            }
+                            for (i, row) in xp.std.outer_iter().enumerate() {
+                                calls += 1;
+                                let one: Pr = s.predict(row);
+                                if (*one as f64).to_bits() != bo.pr_probe[i].to_bits() {
+                                    bad.push(format!("single-sample predict of new sample {}: {} vs batch {}", i, *one, bo.pr_probe[i]));
+                                }
+                            }
+                        }
+                        Model::Reg(s) => {
+                            for (x, want, what) in [(&xt.std, &bo.val_train, "training"), (&xp.std, &bo.val_probe, "new")] {
+                                let mut buf: Array1<F> = Array1::from_elem(want.len(), F::nan());
+                                F::predict_inplace_reg(s, x, &mut buf);
+                                calls += 1;
+                                let got: Vec<f64> = buf.iter().map(|&p| f64of(p)).collect();
+                                if !bits_eq(&got, want) {
+                                    bad.push(format!("buffer pre-filled with NaN ({} records): {}", what, first_diff(&got, want)));
+                                }
+                            }
+                            let mut buf: Array1<F> = Array1::from_elem(np, F::cast(-77.0));
+                            F::predict_inplace_reg(s, &prev, &mut buf);
+                            F::predict_inplace_reg(s, &xp.std, &mut buf);
+                            calls += 2;
+                            let got: Vec<f64> = buf.iter().map(|&p| f64of(p)).collect();
+                            if !bits_eq(&got, &bo.val_probe) {
+                                bad.push(format!("buffer reused from another batch: {}", first_diff(&got, &bo.val_probe)));
+                            }
+                            for (i, row) in xp.std.outer_iter().enumerate() {
+                                calls += 2;
+                                let a = f64of(F::predict_one(s, row));
+                                let b = f64of(F::predict_one_owned(s, row.to_owned()));
+                                if a.to_bits() != bo.val_probe[i].to_bits() || b.to_bits() != bo.val_probe[i].to_bits() {
+                                    bad.push(format!("single-sample predict of new sample {}: view {} / owned {} vs batch {}", i, a, b, bo.val_probe[i]));
+                                }
+                            }
+                        }
+                    }
+                    (bad, calls)
+                });
+                match r {
+                    Ok((b, calls)) => {
+                        bad.extend(b);
+                        cnt.stale_buffer_calls += calls;
+                    }
+                    Err(p) => bad.push(format!("panic: {}", p)),
+                }
+                if !bad.is_empty() {
+                    v.push(Violation::new(
+                        format!("{}.predict_inplace.stale_buffer_or_calling_form_dependence", tag),
+                        format!("{} calls differ from the plain batch predict; first: {}", bad.len(), bad[0]),
+                        cj(Layout::Std, "predict_inplace"),
+                    ));
                 }
             }
         }
